@@ -194,23 +194,24 @@ TheOutcome(q, W) ==
      ELSE IF Len(r) = 1 THEN [out |-> "value", row |-> r[1]]
      ELSE [out |-> "MultipleSolutionFound", row |-> <<>>]
 
-\* ripple-down rule trees (C12).  node = [k = "node", tag, cond, ref, alts] | [k = "nil"]; alts are the alternatives
-\* written in the node's block, in order, each with the alternatives written in its own block.
-\* Chain: the alternatives of a node in the order they are consulted (the order in which they were written).
+\* ripple-down rule trees (C12).  node = [k = "node", tag, cond, ref, alts, edge] | [k = "nil"]; alts are the branches
+\* written in the node's block with `alternative` / `next_rule`, in order, each with the branches written in its own block.
+\* Chain: the members of the chain a node heads, in the order they are consulted (the order in which they were written).
 RECURSIVE Chain(_)
 Chain(n) == FlattenSeqs([j \in 1..Len(n.alts) |-> <<n.alts[j]>> \o Chain(n.alts[j])])
+EdgeOf(n) == IF "edge" \in DOMAIN n THEN n.edge ELSE "alt"
 \* Fire: the tags of the conclusions the tree produces for one assignment: the most specific applicable refinement
-\* replaces what it refines; an alternative is consulted only where the branches before it did not fire.
-RECURSIVE Fire(_, _, _, _), FireOwn(_, _, _, _)
-FireOwn(n, env, q, W) ==    \* n holds: its refinement (with the refinement's own alternatives) or its own conclusion
+\* replaces what it refines; an alternative is consulted only where the branches before it did not fire; a branch
+\* written with next_rule is always consulted as well.
+RECURSIVE Fire(_, _, _, _), FireOwn(_, _, _, _), FireChain(_, _, _, _, _, _)
+FireOwn(n, env, q, W) ==    \* n holds: its refinement (with the refinement's own chain) or its own conclusion
   LET r == Fire(n.ref, env, q, W) IN IF r # <<>> THEN r ELSE <<n.tag>>
+FireChain(ch, j, acc, env, q, W) ==
+  IF j > Len(ch) THEN acc
+  ELSE LET own == IF Holds(ch[j].cond, env, q, W) THEN FireOwn(ch[j], env, q, W) ELSE <<>>
+       IN FireChain(ch, j + 1, IF EdgeOf(ch[j]) = "next" THEN acc \o own ELSE IF acc # <<>> THEN acc ELSE own, env, q, W)
 Fire(n, env, q, W) ==
-  IF n.k = "nil" THEN <<>>
-  ELSE IF Holds(n.cond, env, q, W) THEN FireOwn(n, env, q, W)
-  ELSE LET ch == Chain(n)
-           hit == {j \in 1..Len(ch) : Holds(ch[j].cond, env, q, W)}
-       IN IF hit = {} THEN <<>>
-          ELSE FireOwn(ch[CHOOSE j \in hit : \A k \in hit : j <= k], env, q, W)
+  IF n.k = "nil" THEN <<>> ELSE FireChain(<<n>> \o Chain(n), 1, <<>>, env, q, W)
 \* every assignment of the rule's variables is offered to the tree; a conclusion is P(a = x, b = tag [, c = y])
 RuleSeq(q, W) ==
   LET es == EnvSeq(q, W)
